@@ -46,5 +46,6 @@ func (g *Gen) akaWire() []byte {
 		body = append(body, a...)
 	}
 	l := 4 + len(body)
+	defer func() { poolAdd(body) }()
 	return append([]byte{byte(g.pick(1, 2)), byte(g.r.Intn(256)), byte(l >> 8), byte(l)}, body...)
 }
